@@ -1,5 +1,10 @@
 import Driver.SSDriver
 import Driver.CoreDriver
+import Driver.SudokuDriver
+import Driver.GacDriver
+import Driver.LpDriver
+import Driver.FloatDriver
+import Driver.LowerDriver
 /-
 `selen_model`: reads protocol lines on stdin, prints exactly one result line per
 input line.  State is reset by `case <id>`.
@@ -9,20 +14,40 @@ namespace Driver
 structure St where
   ss : SSSt := SSSt.fresh (Selen.SS.empty 0)
   core : CoreSt := {}
+  sudoku : SudokuSt := {}
+  gac : GacSt := {}
+  lp : LpSt := {}
+  float : FloatSt := {}
+  lower : LowerSt := {}
 
 def step (st : St) (line : String) : St × String :=
   let ws := words line
   match ws with
   | [] => (st, "-")
-  | "#" :: _ => (st, "-")
   | "case" :: _ => ({}, "-")
   | w :: _ =>
-    if w.startsWith "ss." then
+    if w.startsWith "#" then (st, "-")
+    else if w.startsWith "ss." then
       let (s, out) := ssStep st.ss ws
       ({ st with ss := s }, out)
     else if w = "st.var" || w = "prune" || w = "post" || w = "fix" || w = "enum" || w = "opt" || w = "limit" || w = "ctx.min" || w = "ctx.max" || w = "view.mm" then
       let (c, out) := coreStep st.core ws
       ({ st with core := c }, out)
+    else if w.startsWith "sd." then
+      let (c, out) := sudokuStep st.sudoku ws
+      ({ st with sudoku := c }, out)
+    else if w.startsWith "gac." then
+      let (c, out) := gacStep st.gac ws
+      ({ st with gac := c }, out)
+    else if w.startsWith "lp." then
+      let (c, out) := lpStep st.lp ws
+      ({ st with lp := c }, out)
+    else if w.startsWith "fl." then
+      let (c, out) := floatStep st.float ws
+      ({ st with float := c }, out)
+    else if w.startsWith "lw." then
+      let (c, out) := lowerStep st.lower ws
+      ({ st with lower := c }, out)
     else (st, "bad-op")
 
 partial def loop (h : IO.FS.Stream) (out : IO.FS.Stream) (st : St) : IO Unit := do
